@@ -122,6 +122,8 @@ def space(tier):
                                     yield ov_
                                     if "c" in names and assign[2] != "absent" and lp == 0 and ploidy == 2 and fmt in ("bam", "fastq") and (header or assign[0] != "absent" or assign[1] != "absent") and (T or (all(ov_["req"]) and not ov_["largest"])):
                                         yield dict(ov_, hashname=True)
+                                    if lp == 0 and ploidy == 2 and fmt in ("bam", "fastq") and len(set(names)) >= 2 and (T or (all(ov_["req"]) and not ov_["largest"] and (cols, header) == (2, False))):
+                                        yield dict(ov_, slashname=True)
 
 
 def option_vectors(ploidy, names, assign, zextra, fmt, lp, cols, header, T):
@@ -181,12 +183,15 @@ def judge(inst):
     # "hashname": read c is called '#c' in the reads file and in the list (a legal name; only the FIRST line of a list
     # that starts with '#' is a header)
     ren = (lambda n: "#c" if n == "c" else n) if inst.get("hashname") else (lambda n: n)
+    if inst.get("slashname"):
+        # mate-style names: a and b are p/1 and p/2 (different list entries), c is 'p' itself
+        ren = lambda n: {"a": "p/1", "b": "p/2", "c": "p"}.get(n, n)  # noqa
     lens = [(i % 3 + 1) if inst["lp"] == 0 else ((i + 1) % 3 if inst["lp"] == 1 else 2) for i in range(len(names))]
     reads_path = os.path.join(d, "reads." + fmt)
     recs = write_reads(reads_path, fmt, list(zip([ren(n) for n in names], lens)))
     list_path = os.path.join(d, "list.tsv")
     entries = [(ren(n), a) for n, a in zip(NAMES, assign) if a != "absent"] + ([(EXTRA, "H1")] if inst["zextra"] else [])
-    BLOCK = dict(BLOCK, **{"#c": BLOCK["c"]})
+    BLOCK = dict(BLOCK, **{"#c": BLOCK["c"], "p/1": BLOCK["a"], "p/2": BLOCK["b"], "p": BLOCK["c"]})
     with open(list_path, "w") as f:
         if inst["header"]:
             f.write("#readname\thaplotype" + ("\tphaseset\tchromosome" if inst["cols"] == 4 else "") + "\n")
